@@ -31,8 +31,11 @@ def run(tier: str) -> int:
         or e[0] in ("branch", "simplify", "pickle", "downsize")
         or e in (("sat", "none"), ("eval", "x+z", 9, "none"), ("eval", "x", 9, "z==y+1"), ("max", "x+z", "u", "none"), ("min", "y", "u", "z==y+1"), ("beval", "y,u", 9, "u==3"), ("eval", "z", 9, "none"), ("sol", "x+y", 3, "none"))
     ]
+    drop = {("add", "x^z==1"), ("add", "u>s0"), ("eval", "u", 1, "none"), ("eval", "z", 9, "none"), ("min", "y+u", "s", "none"), ("max", "y+u", "s", "none"), ("sol", "z", 0, "x==2"), ("min", "z", "s", "none")}
+    ev_q = [e for e in ev if e not in drop]
+    ev_small_q = [e for e in ev_small if e not in {("downsize",), ("eval", "z", 9, "none")}]
     if tier == "quick":
-        plan = [("SolverComposite", {}, ev, 3, 2, ""), ("SolverComposite", {}, ev_small, 4, 3, "small4")]
+        plan = [("SolverComposite", {}, ev_q, 3, 2, ""), ("SolverComposite", {}, ev_small_q, 4, 3, "small4")]
     else:
         plan = [
             ("SolverComposite", {}, ev, 3, 3, ""),
